@@ -272,7 +272,7 @@ def run_driven(case):
 def run_real(case):
     rng = e2e.rng_of(ID, case)
     spec = gen.general(rng, n=int(rng.integers(1, 4)), maxfev=(30, 80),
-                       forms=("nlc",),
+                       forms=("nlc",), with_faults=bool(rng.random() < 0.3),
                        con=str(rng.choice(["none", "lin", "nl", "both"],
                                           p=[0.2, 0.3, 0.3, 0.2])))
     if rng.random() < 0.3:
@@ -336,6 +336,8 @@ def run_real(case):
             return
         xb = np.array(tr.x_best, dtype=float)
         target = xb + step
+        geo["last_target"] = target.copy()
+        geo["last_xb"] = xb.copy()
         sn = float(np.linalg.norm(step))
         dist = min(float(np.linalg.norm(q - target)) for q in geo["queries"])
         geo["checked"] += 1
@@ -364,6 +366,25 @@ def run_real(case):
         # THE POINT THAT IS INSERTED (after a second-order correction the
         # inserted point is the corrected one)
         k_new, x_ins = args[0], np.asarray(args[1], dtype=float)
+        if last_rm["x"] is None and geo.get("last_target") is not None:
+            # geometry branch: the inserted point is the point the geometry
+            # step was rated for (x_best + the step get_geometry_step
+            # returned), not a modified one
+            tgt = geo["last_target"]
+            geo["last_target"] = None
+            sn = float(np.linalg.norm(tgt - geo["last_xb"]))
+            dist = float(np.linalg.norm(x_ins - tgt))
+            geo["ins_checked"] = geo.get("ins_checked", 0) + 1
+            if dist > 1e-3 * sn + 64 * EPS * float(
+                    np.max(np.abs(tgt)) + 1.0):
+                if len(viols) < 3:
+                    viols.append(V(
+                        "geometry_point_not_the_rated_one",
+                        f"the point inserted after a geometry step "
+                        f"({x_ins.tolist()}) is at distance {dist:.3g} from "
+                        f"the rated point x_best + step "
+                        f"({tgt.tolist()}, step length {sn:.3g})",
+                        mechanism="geometry_point_modified"))
         if last_rm["x"] is not None:
             last_rm["checked"] += 1
             if run.next_kind == "soc" or (run.evals and
@@ -395,6 +416,7 @@ def run_real(case):
                    "solver_queries_checked": info.get("queries", 0),
                    "solver_queries_seen": seen["n"],
                    "geometry_steps_rating_checked": geo["checked"],
+                   "geometry_insertions_checked": geo.get("ins_checked", 0),
                    "replacement_point_checked": last_rm["checked"],
                    "replacement_after_soc_checked": last_rm["soc"]})
     nt = None
